@@ -333,6 +333,9 @@ class HostileCtx(object):
             # a known-good message of the tail, sent early as part of the burst (hostile by its moment,
             # not by its bytes)
             frames.insert(rng.randrange(len(frames) + 1), rng.pick(tail))
+        if rng.chance(0.25):
+            # the peer sends one of its frames a second time later in the burst (a re-sent table, a stuck sender)
+            frames.insert(rng.randrange(1, len(frames) + 1), rng.pick(frames))
         coalesce = rng.chance(0.25)
         return ["hostile", state, frames, tail, coalesce]
 
@@ -401,6 +404,7 @@ class HostileCtx(object):
             self.stats["bursts_with_handler_fault"] += 1
         kinds = []
         desync = False
+        seen_updates = {}
 
         def escapes(pos, what):
             for e in w.log[pos:]:
@@ -460,6 +464,16 @@ class HostileCtx(object):
                 self.stats["hostile_frame:" + kind] += 1
                 escapes(pos, kind)
                 reps = reports_in(w, pos)
+                if well and f.type == rp.UPDATE and st_before == "ESTABLISHED" and not cfg.get("hfail_at"):
+                    # the same UPDATE octets seen earlier in this session: what came in between (and the first
+                    # copy itself) must not change how it is decoded and reported
+                    if fh in seen_updates and seen_updates[fh] != reps:
+                        raise Violation("C10", "tail-unchanged", "%s/repeated-update-reported-differently" % state,
+                                        "the same UPDATE frame was delivered twice in one Established session; first reported as %s, "
+                                        "then as %s" % (json.dumps(seen_updates[fh])[:300], json.dumps(reps)[:300]))
+                    if fh in seen_updates:
+                        self.stats["repeated_update_compared"] += 1
+                    seen_updates.setdefault(fh, reps)
                 if well:
                     if len(reps) > 1:
                         raise Violation("C10", "one-report", "%s/%s/%d-reports" % (state, kind, len(reps)),
@@ -526,6 +540,16 @@ class HostileCtx(object):
                 if c.state == "connected" and not c.closing():
                     raise Violation("C10", "end-state", "idle-with-open-connection",
                                     "agent is IDLE but connection #%d is still open and not being closed" % c.cid)
+            own_notif = any(f.type == rp.NOTIFICATION for f in rp.deframe(bytes(w.conns[cid].written))[0])
+            if own_notif and any(c.closing() for c in w.live_conns()) and not w.reactor.getDelayedCalls():
+                # 'closed cleanly with its reconnect scheduled': the agent ended the session on its own initiative
+                # (it sent a NOTIFICATION); when the completion of that close arrives is up to the peer (one that
+                # does not read delays it for as long as it likes), so an agent that has nothing at all scheduled
+                # until then has not scheduled its reconnect.  (When the PEER ended the session with a NOTIFICATION
+                # it closes its end itself; arming the reconnect on the completion is accepted there.)
+                raise Violation("C10", "end-state", "idle-with-nothing-scheduled/after-%s" % (kinds[-1] if kinds else "none"),
+                                "agent closed the connection after the burst and is IDLE; the close has not completed yet and "
+                                "no timer at all is pending: nothing will reconnect until the peer lets the close complete")
             late = bool(cfg.get("late_close")) and any(c.closing() for c in w.live_conns())
             if late and self.late_close_end(w, cfg, state, kinds, escapes):
                 return
@@ -744,8 +768,8 @@ class HostileProfile(BaseProfile):
             "as whole messages, UPDATE bodies, attribute values or NLRI -- and of reference encodings; random bodies; "
             "duplicated attributes / absurd length fields; occasionally a wrong header length) in OpenSent/OpenConfirm/"
             "Established, frame-per-chunk (75 %) or coalesced, then 1-3 known-good messages whose handler payloads are "
-            "compared with a control run (20 % of bursts: the application handler raises ENOSPC at its 1st-3rd callback during the burst; 15 %: the application has a message queued for the peer) -- in the same session if it survived, and (50 %) in the NEXT session once the agent has reconnected; 40 % of bursts also carry a known-good tail message early; 50 % of tails use an AS_PATH that is well formed under both AS-number widths; non-trivial = prefix reached the state; distinct = distinct (state, frame kinds)")
-    probes = ["handler_fault_fired_in_burst", "bursts_with_queued_application_message", "next_session_tail_compared", "second_reconnect_after_refusal", "late_close_variants", "late_close_survived", "hostile_frame:UPDATE", "hostile_frame:OPEN", "hostile_frame:NOTIFICATION", "hostile_frame:ROUTE-REFRESH",
+            "compared with a control run (20 % of bursts: the application handler raises ENOSPC at its 1st-3rd callback during the burst; 15 %: the application has a message queued for the peer) -- in the same session if it survived, and (50 %) in the NEXT session once the agent has reconnected; 40 % of bursts also carry a known-good tail message early; 50 % of tails use an AS_PATH that is well formed under both AS-number widths; non-trivial = prefix reached the state; distinct = distinct (state, frame kinds); 25 % of the bursts send one frame a second time (the same UPDATE octets must be reported the same way); after a close the agent made on its own initiative some timer must be pending while the close has not completed")
+    probes = ["repeated_update_compared", "handler_fault_fired_in_burst", "bursts_with_queued_application_message", "next_session_tail_compared", "second_reconnect_after_refusal", "late_close_variants", "late_close_survived", "hostile_frame:UPDATE", "hostile_frame:OPEN", "hostile_frame:NOTIFICATION", "hostile_frame:ROUTE-REFRESH",
               "hostile_frame:KEEPALIVE", "hostile_frame:bad_length", "malformed_update_reports",
               "update_frames_in_established", "tail_compared", "reconnect_after_close", "coalesced_bursts"]
 
